@@ -141,3 +141,43 @@ func VerifH_C01_addblocks() { verifC01(2, 2, 2, false) }
 
 //verif:harness prop=C01 tier=thorough replay=interp z3timeout=400 require=rejected,adopted,kept bounds="as VerifH_C01_addblocks with main<=3, side<=3, batch<=3"
 func VerifH_C01_addblocks3() { verifC01(3, 3, 3, false) }
+
+// VerifH_C01_resubmit: the same batch submitted twice. A rejected chain stays
+// rejected (nothing a failed attempt leaves in the store may make the second
+// attempt skip validation), an adopted one is a no-op the second time.
+//
+//verif:harness prop=C01 tier=quick replay=interp z3timeout=400 require=rejected-twice,adopted-once bounds="main chain 1..2; a batch of 1..2 new chained blocks on any stored block, validity and work symbolic, submitted twice through AddBlocks"
+func VerifH_C01_resubmit() {
+	c := newAbsChain()
+	c.buildTree(2, 0)
+	existing := len(c.blocks)
+	n := vapi.Int("batch", 1, 2)
+	p := vapi.Int("parent", 0, existing)
+	pn := uint64(0)
+	if p > 0 {
+		pn = c.blocks[p-1].Nonce
+	}
+	var batch []types.Block
+	for i := 0; i < n; i++ {
+		b := c.newBlock(pn, false)
+		batch = append(batch, b)
+		pn = b.Nonce
+	}
+	pre := c.audit()
+	err1 := c.m.AddBlocks(batch)
+	mid := c.audit()
+	err2 := c.m.AddBlocks(batch)
+	post := c.audit()
+	if err1 != nil {
+		vapi.Reach("rejected-twice")
+		vapi.Assert("resubmit.rejected-stays-rejected", err2 != nil)
+		vapi.Assert("resubmit.rollback", sameAudit(pre, mid) && sameAudit(pre, post))
+	} else {
+		vapi.Assert("resubmit.accepted-stays-accepted", err2 == nil)
+		vapi.Assert("resubmit.second-is-a-no-op", sameAudit(mid, post))
+		if mid.tip != pre.tip {
+			vapi.Reach("adopted-once")
+		}
+	}
+	c.checkLinked("post")
+}
